@@ -60,6 +60,10 @@ CHECKS = {
          "Every pair (base, c) for all 2^32 values c per base (2 bases quick, 14 thorough) is run through the real partial_cmp/operators/add/Timestamp and compared with RFC 1982 computed in u64; exhaustive within the cross-sections, which contain every branch pair of the implementation.",
          "Full 2^64 pair space is not swept; bases chosen at the boundaries (0, 2^31-1, 2^31, 2^32-1, ...).",
          "sweep", "DESIGN.md §3 C17"),
+ "C19": ("exploration", "grammar-exhaustive differential parsing of both codecs + exhaustive build-script enumeration on both builders, each output read by the other codec and by an independent reader",
+         "Part 1: the C01 message grammar (1-2 items quick, 3 thorough; every truncation of short messages; every raw body over 9 symbols to length 5/6; 255-octet names in full and via pointers) parsed by BOTH codecs at every landmark offset as compressed name (NameBuf/RevNameBuf split and parse views, UnparsedName), flat name, question, record with opaque RDATA, character string and whole message (low-level API and MessageParser): both accept or both reject, equal content; documented intentional differences (pointer not before the segment start, pointer into the header, bounded-range parsers) are excused BY RULE with file:line citations and counted. Part 2: every build script over a 14-operation alphabet (questions, records over names with shared suffixes / case variants / a 255-octet name / a label with length-octet look-alikes, adaptive pads ending exactly at 16370..16396) to depth 4/5 on the established builder (TreeCompressor) and the new builder (RevNameBuf and &Name owners), plus a long-script family (head x 0..40 fillers x tail) crossing the compressor's 32-entry table; every output is read by the other codec and by mc::wire; every pointer < 0x4000, backwards, resolving to the intended name.",
+         "Typed-RDATA strictness differences between the codecs (SRV/DNAME/RRSIG/NSEC name compression, empty TXT, short ZONEMD) are counted, not asserted; builder variety on the established side is TreeCompressor<Vec<u8>> only.",
+         "gramx", "DESIGN.md §3 C19"),
  "C20": ("model_checking", "exhaustive enumeration of all cache histories of fixed shapes on the real cache::Connection over a scripted upstream under tokio's paused clock",
          "All histories fill.probe, fill.probe.probe, fill.cross-probe (thorough: also fill.fill'.probe.probe) over 3 questions x 16 flag sets (RD,CD,AD,DO) x 22 upstream answer kinds x 29/44 clock advances x 4 configurations, each on a fresh cache and runtime (4.2 M histories quick, 58.7 M thorough). Oracle: a response not fetched in this step must equal an earlier upstream response for the same question under the documented flag lattice, TTLs decremented by the elapsed time and never larger, not served beyond min(smallest TTL, max_validity, class bound), no DNSSEC records/AD to queries that did not ask, TC only with cache_truncated.",
          "cache.rs uses tokio::time::Instant (owned by the paused clock); moka is used without TTL/background threads; service at exactly elapsed == bound is accepted.",
